@@ -14,33 +14,33 @@ import TraitsVerif.Driver.Proto
 import TraitsVerif.Model.TraitSet
 import TraitsVerif.Py.Dict
 namespace TraitsVerif.Driver.Set
-open TraitsVerif TraitsVerif.Py TraitsVerif.Model TraitsVerif.Proto
+open TraitsVerif TraitsVerif.Py TraitsVerif.Model.SetM TraitsVerif.Proto
 open TraitsVerif.Py.PSet (Op)
 
-def atom? (s : String) : Option Atom :=
+def atom? (s : String) : Option KAtom :=
   let s := clean s
   match s.toList with
-  | 'i' :: rest => (String.ofList rest).toInt?.map Atom.int
-  | 's' :: rest => (String.ofList rest).toInt?.map Atom.str
+  | 'i' :: rest => (String.ofList rest).toInt?.map KAtom.int
+  | 's' :: rest => (String.ofList rest).toInt?.map KAtom.str
   | _ => none
 
-def showAtom : Atom → String
+def showAtom : KAtom → String
   | .int n => s!"i{n}"
   | .str n => s!"s{n}"
 
 /-- `[i1,s2]`. -/
-def atoms? (s : String) : Option (List Atom) :=
+def atoms? (s : String) : Option (List KAtom) :=
   let s := clean s
   if s.length < 2 then none
   else
     let inner := ((s.drop 1).dropEnd 1).toString
     if clean inner = "" then some [] else (inner.splitOn ",").mapM atom?
 
-def showSet (s : List Atom) : String :=
-  "[" ++ ",".intercalate ((s.mergeSort Atom.le).map showAtom) ++ "]"
+def showSet (s : List KAtom) : String :=
+  "[" ++ ",".intercalate ((s.mergeSort KAtom.le).map showAtom) ++ "]"
 
 /-- `S[i1,i2]` → (is a set/frozenset, items in the order given). -/
-def operand? (s : String) : Option (Bool × List Atom) :=
+def operand? (s : String) : Option (Bool × List KAtom) :=
   let s := clean s
   match s.toList with
   | 'S' :: rest => (atoms? (String.ofList rest)).map (true, ·)
@@ -50,8 +50,8 @@ def operand? (s : String) : Option (Bool × List Atom) :=
   | _ => none
 
 inductive Cmd where
-  | op (o : Op Atom)
-  | probe (k : CopyKind) (x : Atom)
+  | op (o : Op KAtom)
+  | probe (k : CopyKind) (x : KAtom)
   | switch (k : CopyKind)
 
 def copyKind? : String → Option CopyKind
@@ -79,17 +79,17 @@ def parseCmd (s : String) : Option Cmd :=
   | ["sw", k] => do pure (.switch (← copyKind? k))
   | _ => none
 
-def showEvent (e : SEvent Atom) : String := s!"E{showSet e.removed}{showSet e.added}"
+def showEvent (e : SEvent KAtom) : String := s!"E{showSet e.removed}{showSet e.added}"
 
-def showRes : Except Exc (SOut Atom) → String
+def showRes : Except Exc (SOut KAtom) → String
   | .error e => s!"err {e.name}"
   | .ok o => s!"ok {showSet o.items} {showOpt showAtom o.ret} {showOpt showEvent o.event}"
 
-def runCmds (v : Callback Atom Atom) : PSet Atom → List Cmd → List String
+def runCmds (v : Callback KAtom KAtom) : PSet KAtom → List Cmd → List String
   | _, [] => []
   | s, .op o :: cs => showRes (TraitSet.step v s o) :: runCmds v (TraitSet.next v s o) cs
   | s, .probe k x :: cs =>
-    let line := match TraitSet.copyOp k ({ items := s, validator := v, notifiers := [0, 1] } : TSObj Atom Nat) with
+    let line := match TraitSet.copyOp k ({ items := s, validator := v, notifiers := [0, 1] } : TSObj KAtom Nat) with
       | .error e => s!"err {e.name}"
       | .ok c =>
         let probe := match TraitSet.step c.validator c.items (.add x) with
@@ -98,11 +98,11 @@ def runCmds (v : Callback Atom Atom) : PSet Atom → List Cmd → List String
         s!"copy {showSet c.items} notifiers={c.notifiers.length} probe:{probe}"
     line :: runCmds v s cs
   | s, .switch k :: cs =>
-    match TraitSet.copyOp k ({ items := s, validator := v, notifiers := [0, 1] } : TSObj Atom Nat) with
+    match TraitSet.copyOp k ({ items := s, validator := v, notifiers := [0, 1] } : TSObj KAtom Nat) with
     | .error e => s!"err {e.name}" :: runCmds v s cs
     | .ok c => s!"ok {showSet c.items} - -" :: runCmds v c.items cs
 
-def pyRun : PSet Atom → List Cmd → List String
+def pyRun : PSet KAtom → List Cmd → List String
   | _, [] => []
   | s, .op o :: cs =>
     match PSet.step s o with
@@ -113,7 +113,7 @@ def pyRun : PSet Atom → List Cmd → List String
 def handle (line : String) : String :=
   match (clean line).splitOn "|" with
   | [kind, v, init, cmds] =>
-    match Atom.validator (clean v), atoms? init, (fields cmds ";").mapM parseCmd with
+    match KAtom.validator (clean v), atoms? init, (fields cmds ";").mapM parseCmd with
     | some v, some init, some cmds =>
       if clean kind = "ps" then " ; ".intercalate (pyRun (PSet.ofList init) cmds)
       else
